@@ -1,5 +1,5 @@
 """C01 -- every CQL value survives an encode/decode round trip (driver against its own inverse)."""
-from hypothesis import strategies as st
+import os
 
 from vlib.harness import EnumPart, hyp_part
 from spec import values as V
@@ -30,6 +30,8 @@ ASSUMPTIONS = [
     "a top-level None is only checked as the documented b''<->None convention (part 'null'); support_empty_values is left off",
     "counter appears only as a top-level type; vectors have dimension >= 1 and non-null elements",
 ]
+# the quick tier is ~15 s of single-core work; forking workers costs more than it saves
+SERIAL = os.environ.get("VERIF_TIER") == "quick"
 LEVEL_TEXT = ("sampled search: no counterexample among the generated triples; not a proof over all values")
 
 
@@ -218,6 +220,10 @@ def interpret_null(case, ctx):
 def parts(tier):
     return [
         hyp_part("roundtrip", s_roundtrip_quick if tier == "quick" else s_roundtrip_thorough, interpret_roundtrip, tier,
-                 quick=700, thorough=9000, quick_shards=8, thorough_shards=16),
+                 quick=1000, thorough=9000, quick_shards=4, thorough_shards=16,
+                 # generator-degenerate guard: about one sixth of the fractions seen over five seeds
+                 floors={"has:vector": 0.03, "has:udt": 0.03, "has:map": 0.04, "has:set": 0.04, "has:tuple": 0.03,
+                         "f:null-inside": 0.035, "f:empty-collection": 0.03, "f:int-boundary": 0.025, "pv:v1-2": 0.06,
+                         "pv:dse": 0.03, "depth:2": 0.04, "style:1": 0.03, "style:2": 0.03, "via:string": 0.04}),
         EnumPart("null", list(V.PROTOCOL_VERSIONS), null_cases, interpret_null),
     ]
